@@ -44,6 +44,10 @@ Judge(ev) ==
   \cup (IF ev.res.ok /\ ev.res.val # Expected(ev) THEN {"WrongResult"} ELSE {})
   \cup (IF FundToNund(ev) /\ ev.res.ok /\ (~ev.res.back.ok \/ ev.res.back.val # ExpectedBack(ev))
         THEN {"RoundTripNotIdentity"} ELSE {})
+  \* the `und convert` command on the same amount, and on its zero-padded spelling (a decimal numeral with a leading zero
+  \* denotes the same number): the same string
+  \cup (IF "cli" \in DOMAIN ev.res /\ (~ev.res.cli.ok \/ ev.res.cli.val # Expected(ev)) THEN {"CommandWrongResult"} ELSE {})
+  \cup (IF "cliPad" \in DOMAIN ev.res /\ (~ev.res.cliPad.ok \/ ev.res.cliPad.val # Expected(ev)) THEN {"CommandWrongResultOnZeroPaddedAmount"} ELSE {})
 
 \* diagnostic: with EXPLAIN=<line> in the environment print expected and observed strings of that line
 Explain(i) ==
